@@ -127,7 +127,7 @@ func c11joinValues() []interface{} {
 	var nilIface interface{}
 	return []interface{}{nil, nilIface, nilErr, nilPtr, nilSlice, true, 1, int8(2), uint(3), uintptr(4), 1.5, float32(2.5), complex(1, 2), "str", "a" + startM + "\nb",
 		[]byte("by"), [2]int{1, 2}, [0]string{}, []int{1, 2}, []string{"a", "b\n"}, []interface{}{1, "x", nil}, []redact.RedactableString{"r1", startM + "u" + endM},
-		[]error{nil}, map[string]int{"k": 1}, map[int]bool(nil), struct{ A int }{1}, &struct{ A int }{1}, &x, make(chan int), (chan int)(nil), func() {}, (func())(nil),
+		[]error{nil}, map[string]int{"k": 1}, map[int]bool(nil), map[interface{}]int{nil: 1, "a": 2, 3: 3}, []map[error]int{{nil: 0, tErr{"e"}: 1}}, struct{ A int }{1}, &struct{ A int }{1}, &x, make(chan int), (chan int)(nil), func() {}, (func())(nil),
 		reflect.ValueOf(3), tStringer{"s"}, tErr{"e"}, redact.Safe("safe"), redact.Unsafe("unsafe"), redact.RedactableString("rs"), redact.RedactableBytes("rb"),
 		[]tStringer{{"a"}}, [][]int{{1}, {2, 3}}, []*int{&x, nil}, tPanicStringer{panicSpec{mode: 0, msg: "boom"}}, []interface{}{tPanicStringer{panicSpec{mode: 0, msg: "boom"}}}}
 }
@@ -419,7 +419,7 @@ func c11nils(c *Ctx) {
 	var ne error
 	var ns fmtStringerNil
 	ops := []interface{}{nil, np, ne, ns, (*tPStringer)(nil), (*tPErr)(nil), []interface{}(nil), map[string]int(nil), (func())(nil), (chan int)(nil), redact.Safe(nil), redact.Unsafe(nil),
-		[]interface{}{nil}, map[string]interface{}{"k": nil}, tS2{nil, nil}, &tS2{}, reflect.Value{}, reflect.ValueOf((*int)(nil)), redact.RedactableString(""), redact.RedactableBytes(nil), (*redact.StringBuilder)(nil)}
+		[]interface{}{nil}, map[string]interface{}{"k": nil}, map[interface{}]int{nil: 1, "a": 2, 3: 3}, map[error]string{nil: "n", tErr{"e"}: "e"}, tS2{nil, nil}, &tS2{}, reflect.Value{}, reflect.ValueOf((*int)(nil)), redact.RedactableString(""), redact.RedactableBytes(nil), (*redact.StringBuilder)(nil)}
 	var jobs [][2]int
 	for i := range ops {
 		for v := range allVerbs {
